@@ -124,7 +124,7 @@ def stage_enum(ctx):
 
 
 def cases():
-    base = st.one_of(gens.antichains(), gens.antichains(), gens.spines())
+    base = st.one_of(gens.antichains(), gens.antichains(), gens.spines(), gens.near_groups(), gens.near_groups())
     return st.one_of(gens.orderings(base), gens.orderings(gens.with_overlaps(base)), gens.with_overlaps(base)).map(
         lambda cs: {"cells": [hex(c) for c in cs]})
 
